@@ -6,6 +6,7 @@ def c06 (input implOut : Sexp) : Option Verdict :=
   | .list (.atom "evalsteps" :: _) => C06.comp input implOut
   | .list (.atom "budget" :: _) => C06.budget input implOut
   | .list (.atom "run" :: _) => C06.run input implOut
+  | .list (.atom "fa" :: _) => C06.fa input implOut
   | _ => none
 
 def main : IO Unit := driverMain (respond c06)
